@@ -557,6 +557,20 @@ pub fn run(c: &mut Ctx) {
                     }
                     c.op(&format!("ts.nfrom_ns {x}"), &match r { Ok(o) => show_odt(o), Err(()) => "panic".into() });
                 }
+                (_, 3) if i % 8 == 3 => {
+                    // the same wrappers on the `Utc` zone type (modelled as offset 0)
+                    let r: Result<Option<DateTime<Utc>>, ()> = match uname {
+                        "ms" => guard(|| Utc.timestamp_millis_opt(x).single()),
+                        "us" => guard(|| Utc.timestamp_micros(x).single()),
+                        _ => guard(|| Some(Utc.timestamp_nanos(x))),
+                    };
+                    if r.map(|o| o.map(|z| z.naive_utc())) != got {
+                        fl.hit(c, "Utc.timestamp_millis_opt/_micros/_nanos differ from DateTime::from_timestamp_*", &line);
+                    }
+                    let opn = match uname { "ms" => "tz_ms_opt", "us" => "tz_us", _ => "tz_ns" };
+                    c.op(&format!("ts.{opn} 0 {x}"), &match r { Ok(Some(z)) => show_z(&z), Ok(None) => "none".into(), Err(()) => "panic".into() });
+                    c.count("utc-typed sub-second wrappers");
+                }
                 (_, 2) => {
                     let off = gen_off(c);
                     let fo = FixedOffset::east_opt(off).unwrap();
